@@ -396,11 +396,11 @@ def idents(s):
     return set(re.findall(r"[A-Za-z_][A-Za-z_0-9]*", s))
 
 
-def check(chk, only_prefixes=None):
+def check(chk, only_prefixes=None, effects=True):
     if not os.path.exists(TABLE):
         raise AnalysisBroken("rules/validator_guards.json missing")
     table = json.load(open(TABLE))
-    sites, effects = extract()
+    sites, effects_found = extract()
     want_sites = table["sites"]
     for key, row in want_sites.items():
         if only_prefixes and not any(key.startswith(p) for p in only_prefixes):
@@ -429,8 +429,8 @@ def check(chk, only_prefixes=None):
         if only_prefixes and not any(k.startswith(p) for p in only_prefixes):
             continue
         chk.notes.append("G-GUARD: new throw site without a table row: %s" % k)
-    for fnname, rows in table.get("effects", {}).items():
-        found = effects.get(fnname)
+    for fnname, rows in (table.get("effects", {}).items() if effects else ()):
+        found = effects_found.get(fnname)
         if not found:
             chk.broke("G-GUARD: layout function %s not found" % fnname)
             continue
